@@ -47,8 +47,9 @@ def _mk_class():
     from pydcop.infrastructure.computations import (SynchronousComputationMixin, MessagePassingComputation, Message, register)
 
     class Probe(SynchronousComputationMixin, MessagePassingComputation):
-        def __init__(self, name, neighbors, chooser, rounds):
+        def __init__(self, name, neighbors, chooser, rounds, style="return"):
             super().__init__(name)
+            self.style = style
             self._nbrs = list(neighbors)
             self.chooser = chooser
             self.rounds = rounds
@@ -73,11 +74,19 @@ def _mk_class():
             self.calls.append((cycle_id, {s: m.content for s, (m, t) in messages.items()}))
             if cycle_id + 1 >= self.rounds:
                 return None  # stays silent: only implicit synchronisation from now on
+            # the two documented ways of sending the messages of a round: post them from on_new_cycle, or return them
+            # (style 'mixed': both in the same round, 'post+empty': everything posted and an empty list returned)
             out = []
-            for tgt in self.chooser(self.name, cycle_id + 1, self._nbrs):
+            for i, tgt in enumerate(self.chooser(self.name, cycle_id + 1, self._nbrs)):
                 payload = (self.name, cycle_id + 1)
                 self.sent.append((cycle_id + 1, tgt, payload))
-                out.append((tgt, Message("algo", payload)))
+                direct = self.style in ("post", "post+empty") or (self.style == "mixed" and (i + cycle_id) % 2 == 0)
+                if direct:
+                    self.post_msg(tgt, Message("algo", payload))
+                else:
+                    out.append((tgt, Message("algo", payload)))
+            if self.style == "post":
+                return None
             return out
 
     return Probe
@@ -102,7 +111,7 @@ def h_sync(env):
             return [n for n in nbrs if rng.random() < 0.5]
         subsets = [list(c) for r in range(len(nbrs) + 1) for c in itertools.combinations(nbrs, r)]
         return env.choice("subset_%s_%d" % (name, cycle), subsets)
-    comps = [Probe(n, g[n], chooser, rounds) for n in g]
+    comps = [Probe(n, g[n], chooser, rounds, p.get("style", "return")) for n in g]
     net = RawNet(env, comps)
     order = list(net.comps)
     so = p.get("start_order", "fwd")
@@ -150,8 +159,16 @@ def _shapes(tier, prop=None):
          dict(graph="star4", rounds=2, subsets="none", policy="lifo"),
          dict(graph="isolated", rounds=2, subsets="all", policy="rr")]
     q += [dict(graph="triangle", rounds=3, subsets="random", policy="random", sched_seed=i, interleave_start=bool(i % 2), between=i % 3) for i in range(3, 9)]
+    q += [dict(graph="pair", rounds=3, policy="explore", style="mixed"), dict(graph="chain3", rounds=3, subsets="all", policy="fifo", style="post"),
+          dict(graph="chain3", rounds=2, policy="fifo", style="mixed"), dict(graph="chain3", rounds=2, policy="lifo", style="post+empty"),
+          dict(graph="star4", rounds=3, subsets="random", policy="random", sched_seed=3, style="mixed", interleave_start=True)]
+    q += [dict(graph="triangle", rounds=3, subsets="random", policy="random", sched_seed=i, interleave_start=bool(i % 2), between=i % 3,
+               style=("mixed", "post", "post+empty")[i % 3]) for i in range(9, 15)]
     if tier != "thorough":
         return q
+    q = q + [dict(graph=g, rounds=4, subsets="random", policy="random", sched_seed=i, interleave_start=bool(i % 2), between=i % 4,
+                  start_order=("rev" if i % 2 else "fwd"), style=("mixed", "post", "post+empty")[i % 3])
+             for g in ("star4", "triangle", "chain3") for i in range(40, 58)]
     return q + [dict(graph="pair", rounds=3, policy="explore", start_order="explore"),
                 dict(graph="chain3", rounds=2, subsets="random", policy="explore", sched_seed=1), dict(graph="chain3", rounds=3, policy="fifo"),
                 dict(graph="chain3", rounds=2, subsets="all", policy="explore", start_order="explore"),
